@@ -180,6 +180,33 @@ class Gen:
         else:
           o = d(st.integers(0, srcw - t[1]))
           conns.append(f"s.{attr} //= s.srcw[{o}:{o + t[1]}]")
+      # a struct-typed wire: one Bits field is driven through a connection and read back through a slice of a slice
+      # (the nested slice belongs to the field signal, not to the struct signal above it)
+      if kind == "Wire" and t[0] == "s" and not isinstance(shape, list) and d(st.booleans()):
+        leafs = [(path, w) for path, w in S.layout(t) if 3 <= w <= srcw]
+        if leafs:
+          path, w = d(st.sampled_from(leafs))
+          e = f"s.{attr}"
+          for p_ in path: e += f"[{p_}]" if isinstance(p_, int) else f".{p_}"
+          o = d(st.integers(0, srcw - w))
+          conns.append(f"{e} //= s.srcw[{o}:{o + w}]")
+          lo = d(st.integers(0, w - 3)); hi = d(st.integers(lo + 2, w))
+          a = d(st.integers(0, hi - lo - 1)); b = d(st.integers(a + 1, hi - lo))
+          sink_id += 1
+          L.append(f"    s.snk{sink_id} = Wire( Bits{b - a} )")
+          conns.append(f"s.snk{sink_id} //= {e}[{lo}:{hi}][{a}:{b}]")
+          if d(st.booleans()):
+            # the same nested slice of a sibling field, if there is one of sufficient width (the two must stay distinct)
+            others = [(p2, w2) for p2, w2 in leafs if p2 != path and w2 >= hi]
+            if others:
+              p2, w2 = d(st.sampled_from(others))
+              e2 = f"s.{attr}"
+              for p_ in p2: e2 += f"[{p_}]" if isinstance(p_, int) else f".{p_}"
+              o2 = d(st.integers(0, srcw - w2))
+              conns.append(f"{e2} //= s.srcw[{o2}:{o2 + w2}]")
+              sink_id += 1
+              L.append(f"    s.snk{sink_id} = Wire( Bits{b - a} )")
+              conns.append(f"s.snk{sink_id} //= {e2}[{lo}:{hi}][{a}:{b}]")
     for i in range(d(st.integers(0, 2))):
       iname, members = self.interface(1)
       shape = d(ragged(None, d(st.sampled_from([0, 0, 1, 2]))))
